@@ -409,6 +409,17 @@ func cmdCheck(args []string) int {
 				case "violation":
 					repro := (pd.v.Kind == "panic" && nr.Outcome == "panic") ||
 						(pd.v.Kind == "assert" && nr.Outcome == "assert" && nr.Label == pd.v.Label)
+					if !repro && (nr.Outcome == "assert" || nr.Outcome == "panic") && !nr.Diverged {
+						// the solver's input does violate the property on the real build,
+						// though at another assertion than the engine predicted (the two
+						// can differ where a model, e.g. of reflect, panics earlier): the
+						// native run is the ground truth and its label is what is reported
+						fmt.Fprintf(os.Stderr, "   note: %s/%s predicted by the engine, native build fails %s %s on the same input\n", pd.h.Func, pd.v.Label, nr.Outcome, nr.Label)
+						if nr.Label != "" {
+							pd.v.Label = nr.Label
+						}
+						repro = true
+					}
 					if strings.HasPrefix(pd.v.Label, "no-unprotected-shared-write") {
 						repro = true // confirmed by the race replay below, not by the single-threaded run
 					}
